@@ -351,6 +351,7 @@ func consoleConfigs(tier string) []consoleCfg {
 	add("TimeFormat=15:04:05.000", func(c *consoleCfg) { c.timeFormat = "15:04:05.000" })
 	add("TimeFormat=RFC3339Nano", func(c *consoleCfg) { c.timeFormat = time.RFC3339Nano }) // (every digit of a nanosecond timestamp)
 	add("TimeLocation=+02:30", func(c *consoleCfg) { c.loc = time.FixedZone("Z", 2*3600+1800) })
+	add("TimeLocation=-07:00 (same zone NAME, another offset)", func(c *consoleCfg) { c.loc = time.FixedZone("Z", -7*3600) })
 	for _, t := range tffs[1:] {
 		t := t
 		add(seqx.AllSettings()[t].Name, func(c *consoleCfg) { c.tff = t })
